@@ -243,7 +243,7 @@ def retS (res : Except PyErr Int) (k : Nat) (f : Int → PyVal) : Except PyErr (
   | .error x => .error x
 
 /-- The 13 unmarshallers of the basic types: `(nbytes, value)`. -/
-def unmarshalBasic (le : Bool) (c : Basic) (r : Rd) (fds : Option (List Int)) : Except PyErr (Nat × PyVal) :=
+def unmarshalBasic (le : Bool) (c : Basic) (r : Rd) (fds : Option (List PyVal)) : Except PyErr (Nat × PyVal) :=
   let e := endianOf le
   match c with
   | .y => retU (unpackU e 1 r) 1 fun n => .int .plain (Int.ofNat n)
@@ -264,7 +264,7 @@ def unmarshalBasic (le : Bool) (c : Basic) (r : Rd) (fds : Option (List Int)) : 
       | none => .error .type
       | some l =>
         match l[idx]? with
-        | some fd => .ok (4, .int .plain fd)
+        | some fd => .ok (4, fd)
         | none => .ok (4, .none)
   | .s | .o =>
     -- slen = unpack 'I'; s = codecs.decode(data[offset+4 : offset+4+slen], 'utf-8'); return 4 + slen + 1, s
@@ -292,7 +292,7 @@ def unmarshalSignature (le : Bool) (r : Rd) : Except PyErr (Nat × List Char) :=
     | none => .error .unicode
 
 /-- `unmarshal_variant`: returns `(offset - start_offset, value[0])`. -/
-def unmarshalVariant (A : Char → Nat) (le : Bool) (r : Rd) (fds : Option (List Int)) : Except PyErr (Nat × PyVal) :=
+def unmarshalVariant (A : Char → Nat) (le : Bool) (r : Rd) (fds : Option (List PyVal)) : Except PyErr (Nat × PyVal) :=
   match unmarshalSignature le r with
   | .error x => .error x
   | .ok (nsig, vsig) =>
@@ -311,7 +311,7 @@ def unmarshalVariant (A : Char → Nat) (le : Bool) (r : Rd) (fds : Option (List
     | _ => .error .other                        -- outside the fragment
 
 /-- `unmarshal_struct('(yv)', …)` = `unmarshal('yv', data, offset, …)`: `(nbytes, [code, value])`. -/
-def unmarshalStructYV (A : Char → Nat) (le : Bool) (r : Rd) (fds : Option (List Int)) :
+def unmarshalStructYV (A : Char → Nat) (le : Bool) (r : Rd) (fds : Option (List PyVal)) :
     Except PyErr (Nat × (Nat × PyVal)) :=
   let r1 := r.skipPad A 'y'
   match unpackU (endianOf le) 1 r1 with
@@ -325,7 +325,7 @@ def unmarshalStructYV (A : Char → Nat) (le : Bool) (r : Rd) (fds : Option (Lis
 /-- The `while offset < end_offset` loop of `unmarshal_array` for element type `(yv)`; returns the
 values and the final reader.  Every iteration reads the code byte, so `fuel` = number of unread bytes
 + 1 is never exhausted. -/
-def unmarshalItems (A : Char → Nat) (le : Bool) (fds : Option (List Int)) :
+def unmarshalItems (A : Char → Nat) (le : Bool) (fds : Option (List PyVal)) :
     Nat → Rd → Nat → Except PyErr (List (Nat × PyVal) × Rd)
   | 0, _, _ => .error .other
   | fuel + 1, r, endOffset =>
@@ -342,7 +342,7 @@ def unmarshalItems (A : Char → Nat) (le : Bool) (fds : Option (List Int)) :
     else .ok ([], r)
 
 /-- `unmarshal_array('a(yv)', …)`: `(offset - start_offset, values)`. -/
-def unmarshalArrayYV (A : Char → Nat) (le : Bool) (r : Rd) (fds : Option (List Int)) :
+def unmarshalArrayYV (A : Char → Nat) (le : Bool) (r : Rd) (fds : Option (List PyVal)) :
     Except PyErr (Nat × List (Nat × PyVal)) :=
   match unpackU (endianOf le) 4 r with
   | .error x => .error x
@@ -365,7 +365,7 @@ structure HeaderVals where
   serial : Nat
   fields : List (Nat × PyVal)
 
-def unmarshalHeader (A : Char → Nat) (le : Bool) (data : Bytes) (fds : Option (List Int)) : Except PyErr HeaderVals :=
+def unmarshalHeader (A : Char → Nat) (le : Bool) (data : Bytes) (fds : Option (List PyVal)) : Except PyErr HeaderVals :=
   let e := endianOf le
   let r0 : Rd := ⟨0, data⟩
   let r := r0.skipPad A 'y'
